@@ -261,6 +261,10 @@ static void runCase(const std::vector<std::string>& lines) {
         // ---- caller-side frame registers (aliasing histories, C08) ----
         else if (cmd == "F.new") { int j = (int)tk.i64(); reg[j] = Frame(); fprintf(g_out, "ok\n"); }
         else if (cmd == "F.set") { int j = (int)tk.i64(); GUARD(readFrameLit(tk, reg[j]); fprintf(g_out, "ok\n")); }
+        else if (cmd == "F.fromdata") {   // the caller copies a stored frame out of the object: Frame f = c.data().frame(i)
+            int j = (int)tk.i64(); int k = (int)tk.i64(); size_t f = tk.u64();
+            GUARD(reg[j] = O(k).data().frame(f); fprintf(g_out, "ok\n"));
+        }
         else if (cmd == "F.copy") { int j = (int)tk.i64(); int i = (int)tk.i64(); reg[j] = reg[i]; fprintf(g_out, "ok\n"); }
         else if (cmd == "F.mutpt") { int j = (int)tk.i64(); size_t i = tk.u64(); float v = tk.flt(); GUARD(reg[j].points_nonConst().point_nonConst(i).x(v); fprintf(g_out, "ok\n")); }
         else if (cmd == "F.addpt") { int j = (int)tk.i64(); Point pt; pt.name(tk.str()); pt.x(tk.flt()); pt.y(tk.flt()); pt.z(tk.flt()); pt.residual(tk.flt()); GUARD(reg[j].points_nonConst().point(pt); fprintf(g_out, "ok\n")); }
